@@ -10,6 +10,7 @@ def dispatch (comp : String) (toks : List String) : String :=
   else if comp == "cg" then handleCg toks
   else if comp == "enc" then handleEnc toks
   else if comp == "hcheck" then handleHCheck toks
+  else if comp == "hfuzz" then handleHFuzz toks
   else "bad-op"
 
 partial def loop (h : IO.FS.Stream) (out : IO.FS.Stream) : IO Unit := do
